@@ -15,6 +15,8 @@ package main
 //	                      the wall clock at the time the client was created.
 //	c19.xproc <fn>        draw once in each of two fresh processes: the values must differ.
 //	c19.reader            crypto/rand.Reader must still be the standard library's own reader.
+//	c19.hist <fn> <prelude> <n>   (c19hist.go) unusual calls first, then ordinary draws: bytes read from the OS
+//	                      source per draw, range and repetition of the values.
 //
 // fn: nonce128 = tl.RandomInt128, nonce256 = tl.RandomInt256, dh_b = math.MakeGAB (its b),
 // srp_a = telegram.GetInputCheckPassword (its A = g^a mod p).
@@ -372,6 +374,9 @@ func c19IsFn(s string) bool {
 
 func c19Exec(op []string) string {
 	c19Init()
+	if out, ok := c19HistExec(op); ok {
+		return out
+	}
 	line := strings.Join(op, " ")
 	num := func(s string) (int64, bool) {
 		v, err := strconv.ParseUint(s, 10, 62)
@@ -412,6 +417,11 @@ func c19Exec(op []string) string {
 // or that repeats across processes does not come from the OS random source.
 func c19Judge(op []string, out string) string {
 	line := strings.Join(op, " ")
+	if len(op) > 0 && op[0] == "c19.hist" {
+		if why := c19HistJudge(op, out); why != "" {
+			return why
+		}
+	}
 	switch {
 	case out == "predictable":
 		return "key-agreement secret is reproducible: " + c19Detail[line]
@@ -427,6 +437,8 @@ func c19Judge(op []string, out string) string {
 
 func c19Gen(g *G) {
 	g.Emit("c19.reader", "reader")
+	// histories first: an operation of this kind that fails then fails on its own, in a fresh process too
+	c19HistGen(g)
 	seeds := []uint64{1}
 	for i := 0; i < g.N(1, 40); i++ {
 		seeds = append(seeds, g.R.U64()>>3)
@@ -450,6 +462,10 @@ func c19Gen(g *G) {
 	for _, fn := range c19Fns {
 		g.Emit("c19.xproc "+fn, "xproc:"+fn)
 	}
+	// what all the operations above (draws with a small modulus, key exchanges, client creation) left behind
+	g.Emit("c19.hist dh_b - 4", "hist:after-everything-else")
+	g.Emit("c19.hist nonce128 - 4", "hist:after-everything-else")
+	g.Emit("c19.reader", "reader")
 }
 
 func c19Setup(g *G) {
